@@ -53,5 +53,6 @@
 #include <cerrno>
 #ifndef VERIF_NATIVE
 template class std::basic_string<char>;
+template class std::basic_streambuf<char>;
 #endif
 #endif
